@@ -43,6 +43,7 @@ struct Cfg {
   int n;
   set<long long> ts;
   int bits = 64;
+  bool auto_n = false;  // pass num_threads = 0 ("as many as there are cores": the shim reports n cores)
 };
 
 static vt::Trace tr;
@@ -86,17 +87,17 @@ static void run_once(const Cfg& c, const vector<int>& prefix, function<int(int)>
   string ret_line;
   try {
     if (c.variant == "range") {
-      IntT r = phosg::parallel_range<IntT>(fn, (IntT)c.s, (IntT)c.e, c.n, nullptr);
+      IntT r = phosg::parallel_range<IntT>(fn, (IntT)c.s, (IntT)c.e, c.auto_n ? 0 : c.n, nullptr);
       vt::J j;
       j.str("e", "ret").num("val", (long long)r).raw("set", "[]").str("exc", "");
       ret_line = j.done();
     } else if (c.variant == "blocks") {
-      IntT r = phosg::parallel_range_blocks<IntT>(fn, (IntT)c.s, (IntT)c.e, (IntT)c.blk, c.n, nullptr);
+      IntT r = phosg::parallel_range_blocks<IntT>(fn, (IntT)c.s, (IntT)c.e, (IntT)c.blk, c.auto_n ? 0 : c.n, nullptr);
       vt::J j;
       j.str("e", "ret").num("val", (long long)r).raw("set", "[]").str("exc", "");
       ret_line = j.done();
     } else {
-      auto r = phosg::parallel_range_blocks_multi<IntT>(fn, (IntT)c.s, (IntT)c.e, (IntT)c.blk, c.n, nullptr);
+      auto r = phosg::parallel_range_blocks_multi<IntT>(fn, (IntT)c.s, (IntT)c.e, (IntT)c.blk, c.auto_n ? 0 : c.n, nullptr);
       vector<long long> v(r.begin(), r.end());
       sort(v.begin(), v.end());
       vt::J j;
@@ -193,6 +194,10 @@ int main(int argc, char** argv) {
     auto cfgs = configs(variant, n, maxlen);
     for (long i = 0; i < runs; i++) {
       Cfg c = cfgs[r.below(cfgs.size())];
+      if (r.chance(15)) {  // the automatic thread count (the shim has 2 "cores")
+        c.auto_n = true;
+        c.n = 2;
+      }
       run_once<uint64_t>(c, {}, [&](int k) { return (int)r.below(k); });
       tr.nontrivial(variant + to_string(c.e - c.s) + "/" + to_string(c.blk) + "/" + to_string(c.ts.size()) + "/" + to_string(vshim::g.taken.size() / 4));
     }
